@@ -23,16 +23,33 @@ EqHeaps ==
    H2b(T23, T23type, "dense", "dense", "ne:type"), H2b(T23, T23nomd, "csr_zeros", "dense", "ne:nomd"),
    H2b(T23, T23zero, "csr_zeros", "csr_zeros", "ne:zero-vs-value")}
 
-HeapSets == [std |-> MCInitHeaps, eq |-> EqHeaps, all |-> MCInitHeaps \cup EqHeaps]
+H3(t, u, v, tag) == [heap |-> [a |-> Fresh(t), b |-> Fresh(u), c |-> Fresh(v)],
+                     builds |-> [a |-> "dense", b |-> "csr_unsorted", c |-> "csc"], tag |-> tag]
+MergeHeaps ==
+  {H2b(MA, MB, "dense", "csr", "mrg:both-md-partial"), H2b(MA0, MB, "csc", "dense", "mrg:other-md-partial"),
+   H2b(MA, MBp, "csr_unsorted", "dense", "mrg:permuted"), H2b(MA0, MBp, "dense", "coo", "mrg:nomd-permuted"),
+   H2b(MA0, MBs, "dense", "dense", "mrg:other-smd-permuted"), H2b(MA0, MD0, "dense", "dense", "mrg:disjoint"),
+   H2b(MA, MDm, "dense", "csr_zeros", "mrg:disjoint-md"), H2b(MA, MN, "csr_zeros", "dense", "mrg:nested"),
+   H2b(MN, MA, "dense", "csr_unsorted", "mrg:nested-rev"), H2b(MA0, MA0, "dense", "csc", "mrg:identical"),
+   H3(MA0, MB0, MC0, "mrg:three"), H3(MD0, MA0, MBp, "mrg:three-b")}
+ConcatHeaps ==
+  {H2b(MA, ME, "dense", "csr_unsorted", "cat:obs-disjoint-permuted"), H2b(MA, MD0, "csc", "dense", "cat:disjoint-both"),
+   H2b(MA, MB, "dense", "dense", "cat:overlapping"), H2b(MA, MG, "csr_zeros", "dense", "cat:samp-disjoint-permuted"),
+   H2b(MA0, MDm, "dense", "dense", "cat:first-without-md"),
+   H3(MA, MF, MC0, "cat:three-partial"), H3(MA0, MD0, MF, "cat:three-b"), H3(MN, ME, MF, "cat:three-c")}
+CountHeaps ==
+  {H1(CT34, "dense", "CT34"), H1(CT34, "csc", "CT34csc"), H1(CT23, "csr_unsorted", "CT23u"),
+   H1(CT23, "csr_zeros", "CT23z"), H1(T22, "coo", "T22"), H1(T32, "dense", "T32")}
+HeapSets == [std |-> MCInitHeaps, eq |-> EqHeaps, all |-> MCInitHeaps \cup EqHeaps, mrg |-> MergeHeaps,
+             cat |-> ConcatHeaps, cnt |-> CountHeaps, stdcnt |-> MCInitHeaps \cup CountHeaps]
 MCHeaps == HeapSets[IOEnv.GEN_HEAPS]
 
 PhaseSpec == JsonDeserialize(IOEnv.GEN_PHASES)
 MCPhases == [i \in 1..Len(PhaseSpec) |->
                [calls |-> SeqSet(PhaseSpec[i].calls), full |-> PhaseSpec[i].full, res |-> PhaseSpec[i].res,
                 pick |-> PhaseSpec[i].pick, salt |-> PhaseSpec[i].salt, recv |-> PhaseSpec[i].recv]]
-MCNatRank == [x \in {"o1", "o2", "o3", "o4", "s1", "s2", "s3", "s4", "n1", "n2", "n3", "n4", "n5", "n6", "zz"} |->
-                CASE x = "o1" -> 1 [] x = "o2" -> 2 [] x = "o3" -> 3 [] x = "o4" -> 4
-                  [] x = "s1" -> 5 [] x = "s2" -> 6 [] x = "s3" -> 7 [] x = "s4" -> 8
-                  [] x = "n1" -> 9 [] x = "n2" -> 10 [] x = "n3" -> 11 [] x = "n4" -> 12
-                  [] x = "n5" -> 13 [] x = "n6" -> 14 [] OTHER -> 15]
+RankList == <<"g0", "g1", "gA", "gB", "gC", "g_nomd", "g_o1", "g_o2", "g_o3", "g_o4", "g_p", "g_q", "g_s1", "g_s2", "g_s3",
+              "g_s4", "g_x", "g_y", "gc", "n1", "n2", "n3", "n4", "n5", "n6", "o1", "o2", "o3", "o4", "o5", "s1", "s2",
+              "s3", "s4", "zz">>
+MCNatRank == [x \in SeqSet(RankList) |-> CHOOSE k \in 1..Len(RankList) : RankList[k] = x]
 =============================================================================
